@@ -15,6 +15,7 @@ struct SockClientThread : public Thread
 	SockClientThread(SocketServer* svr, const Socket& cli):
 		_server(svr), _client(cli)
 	{
+		deleteOnFinish();
 		start();
 	}
 	void run()
@@ -22,7 +23,6 @@ struct SockClientThread : public Thread
 		_server->serve(_client);
 		_client.close();
 		--_server->_numClients;
-		delete this;
 	}
 };
 
